@@ -11,12 +11,12 @@ ST = j1939.ControllerApplication.State
 REQ = 0x10
 
 
-def h_request(ex, cas, requester='normal', dll='j1939-21'):
+def h_request(ex, cas, requester='normal', dll='j1939-21', req_addr=REQ):
     """cas: list of [claim history, preferred address] for the responder stack"""
     w = W.World(ex, mode='interleave')
     r = w.add_node('R', dll=dll)
     s = w.add_node('S', dll=dll)
-    rca, rheld = make_ca(w, r, 'bypassed' if requester == 'normal' else 'not_started', REQ, ident=5)
+    rca, rheld = make_ca(w, r, 'bypassed' if requester == 'normal' else 'not_started', req_addr, ident=5)
     resp = []
     for i, (hist, addr) in enumerate(cas):
         ca, held = make_ca(w, s, hist, addr, ident=100 + i)
@@ -39,7 +39,7 @@ def h_request(ex, cas, requester='normal', dll='j1939-21'):
     else:
         ex.claim('request_accepted', raised is None)
     sent = [f for f in w.log[base:] if f['src'] == 'R']
-    src_addr = REQ if requester == 'normal' else 254
+    src_addr = req_addr if requester == 'normal' else 254
     if raised is None:
         ex.claim('one_request_frame', len(sent) == 1)
         fld = ids.id_fields(sent[0]['id'])
@@ -100,6 +100,10 @@ def jobs(tier):
     for cfg in cfgs:
         for req in ('normal', 'none'):
             out.append(Job('C14', 'c14:h_request', {'cas': cfg, 'requester': req}, W=40, wall=120, validate=1))
+    # address 0 (valid, and falsy in Python) and 253 as requester / responder
+    for ra in (0, 253):
+        out.append(Job('C14', 'c14:h_request', {'cas': [['bypassed', 0x20], ['bypassed', 0x21]], 'requester': 'normal', 'req_addr': ra}, W=40, wall=120, validate=1))
+    out.append(Job('C14', 'c14:h_request', {'cas': [['bypassed', 0], ['normal_immediate', 1]], 'requester': 'normal', 'req_addr': 0x10}, W=40, wall=120, validate=1))
     return out
 
 
